@@ -2,6 +2,7 @@
    About Model/Roaring.v (sc_with_hint, sc_retrieve, fresh_scanner). *)
 From Coq Require Import List NArith ZArith Bool Permutation.
 From BE Require Import Model.GoTypes Model.GoVal Model.Parsers Model.Index Model.Roaring Proofs.RoaringProof.
+From BE Require Gen.IdsGen Model.Spec Proofs.RoaringHolders Proofs.RoaringSpec.
 Import ListNotations.
 
 (* a scanner primed with hint documents returns exactly the hinted conjunction ids that are in every
@@ -32,7 +33,29 @@ Proof. exact sc_with_hint_primed. Qed.
    before" is immediate; that the real Reset clears the pooled bitmap and all three flags is what the
    operation-sequence correspondence compares on every run. *)
 
+(* END TO END AGAINST THE SPECIFICATION, default and pattern containers: a scanner primed with the hint documents hs
+   returns a conjunction id iff its document is among hs AND the specification says the conjunction is satisfied --
+   i.e. exactly the unhinted answer (Props/C03.v) restricted to the hinted documents *)
+Theorem C15_hinted_exact_against_spec : forall b0 b ds os parsers q,
+  RoaringHolders.all_new_r (rb_conts b0) -> rb_conts b0 <> [] -> NoDup (map fst (rb_conts b0)) ->
+  radd_documents b0 ds = (b, os) -> Forall (eq AddOk) os -> NoDup (map d_id ds) ->
+  (forall d cj, In d ds -> In cj (d_conjs d) -> NoDup (map fst cj)) ->
+  (forall d, In d ds -> RoaringSpec.doc_good_r (RoaringSpec.conts_fields (rb_conts b0)) d) ->
+  RoaringSpec.asg_good_r (RoaringSpec.conts_fields (rb_conts b0)) q ->
+  forall hs s0, sc_with_hint (rb_maxconj b) fresh_scanner hs = Some s0 ->
+  exists s, sc_retrieve (rb_conts b) q s0 = POk s /\
+    (forall d k cj x sc, In d ds -> nth_error (d_conjs d) k = Some cj ->
+       IdsGen.NewConjunctionID (Z.of_nat k) (d_id d) = Some x ->
+       Spec.conj_sem (RoaringSpec.conts_fields (rb_conts b0)) parsers cj = Some sc ->
+       (bm_mem x (sc_res s) = true <->
+        In (d_id d) hs /\ Spec.sat_conj (RoaringSpec.conts_fields (rb_conts b0)) parsers q sc = Some true)) /\
+    (forall x, bm_mem x (sc_res s) = true ->
+       exists d k cj, In d ds /\ In (d_id d) hs /\ nth_error (d_conjs d) k = Some cj /\
+                      IdsGen.NewConjunctionID (Z.of_nat k) (d_id d) = Some x).
+Proof. exact RoaringSpec.roaring_index_hinted_spec. Qed.
+
 Print Assumptions C15_hints_restrict_exactly.
 Print Assumptions C15_unhinted.
 Print Assumptions C15_hinted_any_field_order.
 Print Assumptions C15_hint_on_primed_scanner_refused.
+Print Assumptions C15_hinted_exact_against_spec.
